@@ -76,13 +76,37 @@ func registerDynamicTypes() {
 // dynamic "twins" of generated messages. Schemas are cached by name, so a twin and its generated
 // sibling share a schema while every call must still use its own message descriptor.
 func twinTypes() []protoreflect.MessageType {
-	var out []protoreflect.MessageType
-	for _, path := range []string{"test/schema/v1/full_schema.proto", "test/foo/v1/foo.proto"} {
+	// an independent registry: every file the twins need, including the well-known types and the
+	// j5 types they use, is re-created in it, so that e.g. the twin of FullSchema refers to a twin
+	// of google.protobuf.Any and not to the generated descriptor
+	private := &protoregistry.Files{}
+	var clone func(path string) (protoreflect.FileDescriptor, error)
+	clone = func(path string) (protoreflect.FileDescriptor, error) {
+		if fd, err := private.FindFileByPath(path); err == nil {
+			return fd, nil
+		}
 		gen, err := protoregistry.GlobalFiles.FindFileByPath(path)
 		if err != nil {
-			continue
+			return nil, err
 		}
-		twin, err := protodesc.NewFile(protodesc.ToFileDescriptorProto(gen), protoregistry.GlobalFiles)
+		imports := gen.Imports()
+		for i := 0; i < imports.Len(); i++ {
+			if _, err := clone(imports.Get(i).Path()); err != nil {
+				return nil, err
+			}
+		}
+		fd, err := protodesc.NewFile(protodesc.ToFileDescriptorProto(gen), private)
+		if err != nil {
+			return nil, err
+		}
+		if err := private.RegisterFile(fd); err != nil {
+			return nil, err
+		}
+		return fd, nil
+	}
+	var out []protoreflect.MessageType
+	for _, path := range []string{"test/schema/v1/full_schema.proto", "test/foo/v1/foo.proto"} {
+		twin, err := clone(path)
 		if err != nil {
 			continue
 		}
